@@ -4,7 +4,7 @@ import PsV.Props.C04
 # C07 — reading any bytes either fails cleanly or yields a safe, well-formed table
 
 Property theorems only.  `readFixed` is `read_fits_core` with the validation block of fixes/C07-1.diff, `cleanup` the
-scope guard of fixes/C07-2.diff, `stateAt nullInit ndim stop` the object at each throw site of the source (which
+storage guard of commit 907b348 (`storage_guard` / `release_storage`), `stateAt nullInit ndim stop` the object at each throw site of the source (which
 members are allocated, which pointer slots are NULL or garbage), `destroy` the destructor `~splinetable`.  `readCore`
 and `stateAt false` describe the code before the repair.  These are the definitions the driver
 (`PsV/Driver/C06.lean`, command `R`) runs against the real readers on mutated files.
@@ -13,7 +13,7 @@ namespace PsV
 open PsV.Fits
 
 /-- the object state in which `read_fits_core` leaves the table when it throws `e` on a file whose primary image has
-    `ndim` axes (after fixes/C07-2.diff: the guard has run) -/
+    `ndim` axes (the storage guard has run) -/
 def afterFailure (ndim : Nat) (e : RErr) : Except Fault Obj := cleanup (stateAt true ndim (stopOf e))
 
 /-- C07: for every store, the repaired reader either returns a well-formed table, or fails and leaves the object
@@ -87,7 +87,7 @@ theorem C07_counterexample_halfbuilt :
     destroy (stateAt false 1 (stopOf (.order 0))) = .error .nullDeref :=
   ⟨exMissingKnots_core, by decide, exMissingOrder_core, by decide⟩
 
-/-- With fixes/C07-2.diff the same two failures leave an empty object. -/
+/-- With the storage guard (commit 907b348) the same two failures leave an empty object. -/
 theorem C07_repaired_halfbuilt :
     afterFailure 2 (.knotSize 1) = .ok Obj.empty ∧ afterFailure 1 (.order 0) = .ok Obj.empty := by
   constructor <;> decide
